@@ -2,6 +2,7 @@
 use vstd::prelude::*;
 verus! {
 //@include common/prelude.vrs
+//@include common/pbf_blob.vrs
 //@include common/compression.vrs
 //@include common/tile_converter.vrs
 
